@@ -45,6 +45,12 @@ type nJob struct {
 	firstRun  time.Time
 	cancelAck bool
 	ackWait   bool
+	// ackRunning: CancelJob returned nil while the job was running
+	ackRunning bool
+	// finishEarly: tasks that end successfully as soon as they run (used to bring a job to the point
+	// where every task has begun before a cancel lands)
+	finishEarly map[string]bool
+	running     map[string]bool
 	replaced  bool
 	cancelled chan struct{}
 	once      sync.Once
@@ -166,16 +172,25 @@ func (m *nRunner) Run(t *task.Task) error {
 	}
 	w.mu.Lock()
 	nj.inflight++
+	if nj.running == nil {
+		nj.running = map[string]bool{}
+	}
+	nj.running[t.Name] = true
 	w.mu.Unlock()
 	defer func() {
 		w.mu.Lock()
 		nj.inflight--
+		delete(nj.running, t.Name)
 		w.mu.Unlock()
 	}()
 	var err error
 	for {
 		w.mu.Lock()
 		mode, failOne := nj.mode, nj.failOne
+		if nj.finishEarly[t.Name] {
+			w.mu.Unlock()
+			break
+		}
 		if failOne {
 			nj.failOne = false
 		}
@@ -430,6 +445,59 @@ func (w *nWorld) schedule(reserved bool) {
 	}
 }
 
+// nRetNilFollows: the trace lets this job's scheduler return nil after the cancel, without the stop
+// having been delivered or a task having reacted to it in between.
+func nRetNilFollows(rest []string, name string) bool {
+	for _, ev := range rest {
+		f := strings.Fields(ev)
+		if len(f) == 0 {
+			continue
+		}
+		switch {
+		case f[0] == "RET" && len(f) >= 3 && f[1] == name:
+			return f[2] == "nil"
+		case f[0] == "CGO", f[0] == "TASKCANCELED" && len(f) >= 2 && f[1] == name:
+			return false
+		}
+	}
+	return false
+}
+
+// advanceToLastTasks lets every task that has dependents finish successfully and waits until all the
+// others are in flight: the cancel then lands when every task of the job has begun (a cancel racing
+// with completion).
+func (w *nWorld) advanceToLastTasks(nj *nJob) {
+	tasks := nTasks(nj.defGen)
+	hasDependents := map[string]bool{}
+	for _, td := range tasks {
+		for _, d := range td.DependsOn {
+			hasDependents[d] = true
+		}
+	}
+	w.mu.Lock()
+	if nj.firstRun.IsZero() || nj.mode != 0 {
+		w.mu.Unlock()
+		return
+	}
+	nj.finishEarly = hasDependents
+	w.mu.Unlock()
+	deadline := time.Now().Add(3 * time.Second)
+	for time.Now().Before(deadline) {
+		all := true
+		w.mu.Lock()
+		for name := range tasks {
+			if !hasDependents[name] && !nj.running[name] {
+				all = false
+			}
+		}
+		w.mu.Unlock()
+		if all {
+			return
+		}
+		time.Sleep(5 * time.Millisecond)
+	}
+}
+
 func (w *nWorld) cancel(nj *nJob) {
 	var wasCanceled, wasCompleted, wasWaiting bool
 	_ = w.r.ReadJob(nj.id, func(j *PipelineJob) { wasCanceled, wasCompleted, wasWaiting = j.Canceled, j.Completed, j.Start == nil })
@@ -458,6 +526,7 @@ func (w *nWorld) cancel(nj *nJob) {
 		}
 		w.mu.Lock()
 		nj.cancelAck = true
+		nj.ackRunning = true
 		w.mu.Unlock()
 		// the stop must be delivered to the runner
 		deadline := time.Now().Add(2 * time.Second)
@@ -618,7 +687,7 @@ func TestVerifReplayBMC(t *testing.T) {
 		t.Fatal(err)
 	}
 	w.r = r
-	for _, ev := range rf.Events {
+	for evIdx, ev := range rf.Events {
 		f := strings.Fields(ev)
 		if len(f) == 0 {
 			continue
@@ -629,6 +698,9 @@ func TestVerifReplayBMC(t *testing.T) {
 			w.schedule(f[1] == "reserved")
 		case "CANCEL":
 			if nj := w.job(f[1]); nj != nil {
+				if nRetNilFollows(rf.Events[evIdx+1:], nj.name) {
+					w.advanceToLastTasks(nj)
+				}
 				w.cancel(nj)
 			}
 		case "RET":
@@ -679,6 +751,19 @@ func TestVerifReplayBMC(t *testing.T) {
 		}
 	}
 	w.settle()
+	for _, nj := range w.jobs {
+		w.mu.Lock()
+		ack := nj.ackRunning
+		w.mu.Unlock()
+		if !ack {
+			continue
+		}
+		completed, canceled := false, false
+		_ = w.r.ReadJob(nj.id, func(j *PipelineJob) { completed, canceled = j.Completed, j.Canceled })
+		if completed && !canceled {
+			w.violate("C04.acknowledged-cancel-ends-reported-as-canceled", nj.name+": CancelJob returned nil while it was running, it ended completed and not canceled")
+		}
+	}
 	w.mu.Lock()
 	defer w.mu.Unlock()
 	for k, v := range w.viol {
